@@ -1,16 +1,25 @@
 """C01 — the reference implementations pass every embedded test permutation; the shipped
 known-failing lists stay exact.
 
+Quick tier: besides the gRPC-peer runs and the reduced sub-matrix of the reference pair, "slices" of the SHIPPED
+reference configuration are run with --run row patterns chosen by a covering-array computation (`_cover`), so that
+every axis value, every (suite x axis value) and every per-suite (axis value x axis value) pair of the full matrix is
+executed; every run is judged against the oracle evaluated for its configuration and its --run / --skip patterns.
+
 The property is about a FINITE set of executions of the real binaries.  The Coq development gives the
 oracle (which names a run must send, which of them the known-failing list marks, what success means);
 `extra()` builds the five binaries from the working tree, runs the runner exactly as the Makefile's
 `runconformance` does and compares every run with the oracle evaluated on the REAL embedded suites and
 the REAL shipped configuration / known-failing files (dumped through the repository's own loaders)."""
 import collections
+import concurrent.futures
+import itertools
 import json
+import math
 import os
 import re
 import subprocess
+import threading
 import time
 
 from .. import core
@@ -73,6 +82,21 @@ RUNS = [
 ]
 BINARIES = ["connectconformance", "referenceserver", "referenceclient", "grpcserver", "grpcclient"]
 
+# the axes of the matrix the property names, as read off each request (tls: 0 none, 1 TLS, 2 TLS + client certificates)
+AXES = ("version", "protocol", "codec", "compression", "tls", "stream")
+AXIS_NAMES = {
+    "version": {1: "HTTP_VERSION_1", 2: "HTTP_VERSION_2", 3: "HTTP_VERSION_3"},
+    "protocol": {1: "PROTOCOL_CONNECT", 2: "PROTOCOL_GRPC", 3: "PROTOCOL_GRPC_WEB"},
+    "codec": {1: "CODEC_PROTO", 2: "CODEC_JSON"},
+    "compression": {1: "COMPRESSION_IDENTITY", 2: "COMPRESSION_GZIP", 3: "COMPRESSION_BR", 4: "COMPRESSION_ZSTD",
+                    5: "COMPRESSION_DEFLATE", 6: "COMPRESSION_SNAPPY"},
+    "tls": {0: "no TLS", 1: "TLS", 2: "TLS + client certificates"},
+    "stream": {1: "unary", 2: "client stream", 3: "server stream", 4: "half-duplex bidi stream", 5: "full-duplex bidi stream"},
+}
+CFG_PARTS = ("HTTPVersion:", "Protocol:", "Codec:", "Compression:", "TLS:")
+SLICE_TARGET_S = 25.0     # estimated duration of one slice process
+SLICE_MAX_PROCS = 4       # per mode
+
 SEND_RE = re.compile(r'^Sending request for (".*")\.\.\.$')
 RECV_RE = re.compile(r'^Received response for (".*")\.\.\.$')
 INFO_RE = re.compile(r"^INFO: (.*) failed \(as expected\):$")
@@ -103,14 +127,26 @@ class C01(Prop):
             "client, grpcserver, grpcserver with the gRPC-Web config, grpcclient) with the real binaries built from the working tree, "
             "`-v --vv --trace --known-failing @<shipped list>`; per run: exit status 0, `0 failed`, no FAILED line, no 'could not be run', "
             "multiset of 'Sending request for' names = the oracle's names (none dropped, none twice), every one answered, totals = |names|, "
-            "INFO 'failed (as expected)' names = the oracle's marked set. quick: gRPC-peer runs in full + the reference pair in both modes on "
-            "the reduced configuration (HTTP/1.1 + h2c, 3 protocols, proto + json, identity + gzip, no TLS); thorough: the full shipped matrix. "
-            "ORACLE vs CODE: c01.real = the extracted predicted_run on the dump of the real embedded suites / shipped configs / shipped lists "
-            "against parseConfig + newTestCaseLibrary + allPermutations + the client x server x instance loops with filterGRPCImplTestCases "
-            "+ tryMatchPatterns on the real inputs (sorted sent names, marked names, library size, groups, total); c01.run = the same plus "
-            "newResults/setOutcome/report() with an outcome assignment, on generated configurations, suites, pattern lists (exact lists, "
-            "listed-but-passing, unlisted-but-failing, unmatched and shadowed patterns, set-up / could-not-run outcomes, marker-like test "
-            "names); c01.patterns = argsToPatterns('@file') on the shipped lists and variants. non-trivial = a run was predicted")
+            "INFO 'failed (as expected)' names = the oracle's marked set. thorough: the full shipped matrix. quick: the gRPC-peer runs in "
+            "full; for the reference pair, in BOTH modes, (a) the reduced sub-matrix (HTTP/1.1 + h2c, 3 protocols, proto + json, identity + "
+            "gzip, no TLS) of every suite except the two message-size suites (--skip), in full, plus (b) 4 'slice' processes per mode on the "
+            "SHIPPED reference-impls-config.yaml restricted with --run '<suite>/<config case>/**' row patterns chosen by a greedy "
+            "covering-array computation over (suite, HTTP version, protocol, codec, compression, TLS mode [none / TLS / TLS + client "
+            "certificates], stream type) on the full matrix as the repository's own loaders announce it: together (a)+(b) execute every "
+            "axis value, every (suite x axis value) and, inside every suite, every (axis value x axis value) pair that exists in the full "
+            "matrix at least once (counted after the runs from the 'Sending request' lines: evidence axis_values_covered / "
+            "pairs_covered; the check ERRORs if a pair is missing); about 150 + 210 rows, 3,500 + 4,800 distinct permutations of 12,998 + "
+            "16,580. Every run, sliced or not, is judged against the oracle evaluated for ITS configuration and ITS --run / --skip "
+            "patterns (predicted_slices). "
+            "ORACLE vs CODE: c01.real = the extracted predicted_run / predicted_slices on the dump of the real embedded suites / shipped "
+            "configs / shipped lists against parseConfig + newTestCaseLibrary + allPermutations + the client x server x instance loops "
+            "with filterGRPCImplTestCases + newFilter/filter.apply + tryMatchPatterns on the real inputs (sorted sent names, marked names, "
+            "library size, groups, |allPermutations|, filteredTestCount, patterns ok) - in the quick tier now also on the FULL shipped "
+            "reference configuration (the slices); c01.run = the same plus newResults/setOutcome/report() with an outcome assignment, on "
+            "generated configurations, suites, pattern lists (exact lists, listed-but-passing, unlisted-but-failing, unmatched and "
+            "shadowed patterns, set-up / could-not-run outcomes, marker-like test names), 30% of them restricted with generated --run / "
+            "--skip patterns (incl. patterns that match nothing); c01.patterns = argsToPatterns('@file') on the shipped lists and "
+            "variants. non-trivial = a run was predicted")
     trusted_base = ("Coq 8.16.1 kernel (vm_compute only in Examples)", "extraction (ExtrOcamlBasic only) + ocaml/driver.ml",
                     "vlib/props/c01.py: process launching, parsing of the runner's printed lines (Sending/Received/INFO/FAILED/totals)",
                     "Go overlay harness harness/C01 (projection of the real suites/configs into the case encoding; copy of the client x "
@@ -125,15 +161,39 @@ class C01(Prop):
                   "verdict, totals and per-case lines are compared with a proved oracle. Machine-checked (Coq) about the oracle: the names it "
                   "predicts are exactly those the C06/C07 specifications describe, pairwise distinct, the batching of run() sends each exactly "
                   "once, and the runner's success verdict holds exactly when no pattern is unmatched, every listed permutation ran and failed "
-                  "and every unlisted one passed (with an empty list: all passed). The oracle is tied to the code on every check by evaluating "
+                  "and every unlisted one passed (with an empty list: all passed); a run restricted with --run / --skip sends exactly the "
+                  "expected permutations some run pattern globs and no skip pattern globs, announces that many, and succeeds exactly when "
+                  "its pattern lists are well-formed against the whole space and every SENT permutation meets its listing. The oracle is "
+                  "tied to the code on every check by evaluating "
                   "it against the real loaders on the real embedded corpus and shipped files. The verdicts themselves (pass/fail of each "
-                  "permutation) come from execution, not from a theorem.")
+                  "permutation) come from execution, not from a theorem. Tiers: THOROUGH executes the full shipped matrix (12,998 "
+                  "server-mode + 16,580 client-mode permutations of the reference pair + the three gRPC-peer runs). QUICK executes the three "
+                  "gRPC-peer runs in full and, for the reference pair in each mode, (a) every permutation of the reduced sub-matrix HTTP/1.1 "
+                  "+ h2c x 3 protocols x proto/json x identity/gzip without TLS of all suites except the two message-size suites, and (b) "
+                  "about 150 (server mode) / 210 (client mode) rows (suite x config case, all their test cases) of the SHIPPED configuration, "
+                  "chosen by a covering-array computation and run with --run, such that every value of HTTP version (1, 2, 3), protocol, "
+                  "codec, compression (identity, gzip, br, zstd, deflate, snappy), TLS mode (none, TLS, TLS + client certificates) and stream "
+                  "type, every (suite x axis value) pair and every (axis value x axis value) pair inside every suite that the full matrix "
+                  "contains is executed at least once per mode (about 3,500 + 4,800 distinct permutations; the counts actually executed are "
+                  "in the evidence: axis_values_covered, pairs_covered). Not executed by QUICK: the remaining ~3/4 of the matrix, i.e. "
+                  "combinations of three or more axis values inside a suite beyond those pairs.")
     level_note = ("level=proof refers to the oracle theorems (obligations = C01_Props); pass/fail of the 12,998 + 16,580 + gRPC-peer permutations "
-                  "is established by exhaustive execution in the thorough tier (exhaustive=true in the evidence) and on the reduced HTTP/TLS/"
-                  "compression matrix in the quick tier (exhaustive=false). Expected responses are not predicted by the model (C02's subject). "
-                  "The npm-built testing/grpcwebclient is not available offline: the sixth Makefile run (grpc-web-client-impl-config) is not "
-                  "executed; its configuration and list are not covered. One execution per check: timing-dependent flakiness is not explored.")
-    technique = "Coq oracle (composition of C06/C07/C08/C04 theorems) + exhaustive execution of the real binaries"
+                  "is established by exhaustive execution in the thorough tier (exhaustive=true in the evidence). The QUICK tier "
+                  "(exhaustive=false) executes: the three gRPC-peer runs in full (1,162 permutations); for the reference pair in each mode the "
+                  "complete reduced sub-matrix (HTTP/1.1 + h2c x Connect / gRPC / gRPC-Web x proto / json x identity / gzip, no TLS) of all "
+                  "suites but the two message-size suites, and rows of the full shipped matrix selected with --run so that EVERY value of "
+                  "every axis the property names (HTTP version 1/2/3, protocol, codec, all six compressions, no TLS / TLS / TLS with client "
+                  "certificates, the five stream types), every (suite x axis value) pair and, within every suite, every (axis value x axis "
+                  "value) pair of the full matrix is executed at least once in each mode - about a quarter of the matrix (3,500 of 12,998 "
+                  "server-mode, 4,800 of 16,580 client-mode permutations). What the quick tier does NOT execute: interactions of three or "
+                  "more axis values inside one suite beyond those pairs (e.g. zstd x gRPC-Web x HTTP/3 in one suite may be covered only "
+                  "pair by pair), and, outside the reduced sub-matrix, each selected row once rather than in every combination. Which values "
+                  "/ pairs were executed is COUNTED from the runs and written to the evidence (axis_values_covered, pairs_covered, slices); a "
+                  "missing pair is an ERROR of the check. Expected responses are not predicted by the model (C02's subject). The npm-built "
+                  "testing/grpcwebclient is not available offline: the sixth Makefile run (grpc-web-client-impl-config) is not executed; its "
+                  "configuration and list are not covered. One execution per check: timing-dependent flakiness is not explored.")
+    technique = ("Coq oracle (composition of C06/C07/C08/C04 theorems) + exhaustive execution of the real binaries (thorough) / "
+                 "reduced sub-matrix + covering-array slices of the shipped matrix (quick)")
 
     # ------------------------------------------------------------------
     def nontrivial(self, case, res):
@@ -209,13 +269,122 @@ class C01(Prop):
             elif r < 0.36 and ss:
                 ps.append(ss[0][0] + "/**")
             rng.shuffle(ps)
+            if rng.random() < 0.3:
+                # the same run restricted with --run / --skip (the form the quick tier's slices use)
+                pool = [s[0] + "/**" for s in ss] + ["**/unary/*", "**/" + rng.choice(tests)[0], "**/(grpc client impl)/**",
+                                                      "**/(grpc server impl)/**", "*/Compression:COMPRESSION_GZIP/**",
+                                                      "**/TLS:false/**", "**/Protocol:PROTOCOL_GRPC/**", "Nope/**", "**"]
+                rs = rng.sample(pool, rng.choice([0, 1, 1, 2, 3]))
+                sk = rng.sample(pool[:-2], rng.choice([0, 0, 1, 2]))
+                yield ["c01.run", cl, sv, fe, inc, exc, ss, ps, outs, rs, sk]
+                continue
             yield ["c01.run", cl, sv, fe, inc, exc, ss, ps, outs]
+
+    # ------------------------------------------------------------------
+    # the quick tier's slices: which rows of the full shipped matrix are executed besides the reduced sub-matrix
+    # ------------------------------------------------------------------
+    def _universe(self, ctx, cfg_text):
+        """{mode key: [(name, (version, protocol, codec, compression, tls mode, stream type))]} of the shipped reference
+        configuration, from the repository's own loaders (TestVerifDump 'universe': axis values are read off the
+        REQUEST each permutation would send, not off its name)."""
+        din = os.path.join(ctx.work, "universe.in")
+        dout = os.path.join(ctx.work, "universe.out")
+        with open(din, "w") as f:
+            f.write(core.sx(["universe", 0, "referenceserver", 1, 0, cfg_text]) + "\n")
+            f.write(core.sx(["universe", 1, "referenceclient", 0, 1, cfg_text]) + "\n")
+        core.run_go(ctx.bin("cc"), self.packages["cc"], din, dout, timeout=300, testname="TestVerifDump")
+        uni = {"referenceserver": [], "referenceclient": []}
+        for line in open(dout):
+            t = core.parse_sx(line)
+            r = t[2]
+            tls = 2 if r[6] else 1 if r[5] else 0
+            uni["referenceserver" if t[1] == 0 else "referenceclient"].append((r[0].decode(), (r[1], r[2], r[3], r[4], tls, r[7])))
+        return uni
+
+    @staticmethod
+    def _row_prefix(name):
+        parts = name.split("/")
+        i = 1
+        while i < len(parts) and parts[i].startswith(CFG_PARTS):
+            i += 1
+        return "/".join(parts[:i])
+
+    @staticmethod
+    def _targets(suite, tup):
+        """what one executed permutation covers: (suite x axis value) and, within the suite, (axis value x axis value)"""
+        t = {("sv", suite, a, v) for a, v in zip(AXES, tup)}
+        for (i, a), (j, b) in itertools.combinations(list(enumerate(AXES)), 2):
+            t.add(("svv", suite, a, tup[i], b, tup[j]))
+            t.add(("vv", a, tup[i], b, tup[j]))
+        return t
+
+    def _rows(self, perms):
+        """rows = (suite, version, protocol, codec, compression, tls mode): the unit a --run pattern '<prefix>/**' selects"""
+        rows = {}
+        for name, tup in perms:
+            suite = name.split("/")[0]
+            r = rows.setdefault((suite,) + tup[:5], {"prefix": self._row_prefix(name), "names": [], "targets": set()})
+            if r["prefix"] != self._row_prefix(name):
+                raise core.HarnessError("C01 slices: permutations of one row differ in their name prefix: %s / %s" % (r["prefix"], name))
+            r["names"].append(name)
+            r["targets"] |= self._targets(suite, tup)
+        return rows
+
+    @staticmethod
+    def _expensive(suite):
+        """the runner compares the 200 KB payloads of these suites at about 0.45 s per case: their rows are left out of the
+        reduced sub-matrix run (--skip) and spread over the slice processes instead"""
+        return "Message Size" in suite
+
+    @classmethod
+    def _in_reduced(cls, key):
+        suite, v, p, c, z, t = key
+        return v in (1, 2) and z in (1, 2) and t == 0 and not cls._expensive(suite)
+
+    def _cover(self, rows):
+        """greedy covering array: rows of the full matrix, outside the reduced sub-matrix, such that together with it every
+        (suite x axis value) and, per suite, every (axis value x axis value) of the full matrix is executed at least once"""
+        need = set()
+        for r in rows.values():
+            need |= r["targets"]
+        total = set(need)
+        for k, r in rows.items():
+            if self._in_reduced(k):
+                need -= r["targets"]
+        cand = sorted(k for k in rows if not self._in_reduced(k))
+        chosen = []
+        while need:
+            best = None
+            for k in cand:
+                g = len(rows[k]["targets"] & need)
+                if g and (best is None or (g, -len(rows[k]["names"])) > best[0]):
+                    best = ((g, -len(rows[k]["names"])), k)
+            if best is None:
+                raise core.HarnessError("C01 slices: %d coverage targets cannot be reached by any row" % len(need))
+            chosen.append(best[1])
+            need -= rows[best[1]]["targets"]
+            cand.remove(best[1])
+        return total, chosen
+
+    @staticmethod
+    def _pack(rows, chosen):
+        """split the chosen rows over a few runner processes of similar estimated duration (the runner compares the 200 KB
+        payloads of the message-size suites at about 0.45 s per case, everything else takes a few ms per case)"""
+        cost = {k: len(rows[k]["names"]) * (0.45 if C01._expensive(k[0]) else 0.02) for k in chosen}
+        n = max(1, min(SLICE_MAX_PROCS, int(math.ceil(sum(cost.values()) / SLICE_TARGET_S))))
+        bins = [[0.0, []] for _ in range(n)]
+        for k in sorted(chosen, key=lambda k: (-cost[k], k)):
+            b = min(bins, key=lambda b: b[0])
+            b[0] += cost[k]
+            b[1].append(k)
+        return [sorted(b[1]) for b in bins if b[1]]
 
     # ------------------------------------------------------------------
     # execution
     # ------------------------------------------------------------------
     def _plan(self, ctx):
-        """[(run name, cl, sv, config path, config text, known-failing path, peer binary name)]"""
+        """[(run name, cl, sv, config path, config text, known-failing path, peer binary name,
+             None | {"run": [patterns], "skip": [patterns]})]"""
         tdir = os.path.join(core.REPO, "testing")
         reduced = os.path.join(ctx.work, "reference-impls-reduced-config.yaml")
         with open(reduced, "w") as f:
@@ -225,21 +394,48 @@ class C01(Prop):
             cfgp = os.path.join(tdir, cfg)
             if ctx.tier == "quick" and name.startswith("reference"):
                 cfgp = reduced
-            plan.append((name, cl, sv, cfgp, open(cfgp, "rb").read(), os.path.join(tdir, kf), peer))
+            plan.append((name, cl, sv, cfgp, open(cfgp, "rb").read(), os.path.join(tdir, kf), peer, None))
+        self._slices = {}
+        if ctx.tier == "quick":
+            # slices of the SHIPPED reference configuration, selected with --run
+            cfgp = os.path.join(tdir, "reference-impls-config.yaml")
+            cfg_text = open(cfgp, "rb").read()
+            uni = self._universe(ctx, cfg_text)
+            for name, cl, sv, cfg, kf, peer in RUNS[:2]:
+                rows = self._rows(uni[name])
+                total, chosen = self._cover(rows)
+                parts = self._pack(rows, chosen)
+                self._slices[name] = {"rows": rows, "targets": total, "chosen": chosen, "parts": parts,
+                                      "tuple_of": dict(uni[name])}
+                for i, part in enumerate(parts):
+                    pats = [rows[k]["prefix"] + "/**" for k in part]
+                    plan.append(("%s-slice%d" % (name, i + 1), cl, sv, cfgp, cfg_text, os.path.join(tdir, kf), peer,
+                                 {"run": pats, "skip": []}))
+                # the run on the reduced configuration leaves the expensive suites to the slices
+                skip = sorted({k[0] + "/**" for k in rows if self._expensive(k[0]) and k[1] in (1, 2) and k[4] in (1, 2) and k[5] == 0})
+                j = [r[0] for r in plan].index(name)
+                plan[j] = plan[j][:7] + ({"run": [], "skip": skip},)
         return plan
 
     def _start(self, ctx, bins, run):
-        name, cl, sv, cfgp, _, kfp, peer = run
+        name, cl, sv, cfgp, _, kfp, peer, sel = run
         rel = lambda p: "./" + os.path.relpath(p, core.REPO) if p.startswith(core.REPO + os.sep) else p
         cmd = [bins["connectconformance"], "-v", "--vv", "--conf", rel(cfgp), "--mode", "server" if cl else "client", "--trace",
-               "--known-failing", "@" + rel(kfp), "--", bins[peer]]
+               "--known-failing", "@" + rel(kfp)]
+        for flag in ("run", "skip"):
+            if sel and sel[flag]:
+                pf = os.path.join(ctx.work, "run.%s.%s-patterns" % (name, flag))
+                with open(pf, "w") as f:
+                    f.write("\n".join(sel[flag]) + "\n")
+                cmd += ["--" + flag, "@" + pf]
+        cmd += ["--", bins[peer]]
         so = open(os.path.join(ctx.work, "run.%s.stdout" % name), "wb")
         se = open(os.path.join(ctx.work, "run.%s.stderr" % name), "wb")
         p = subprocess.Popen(cmd, cwd=core.REPO, env=core.env(), stdout=so, stderr=se, stdin=subprocess.DEVNULL)
         return {"run": run, "cmd": cmd, "proc": p, "t0": time.time(), "so": so, "se": se}
 
     def _violation(self, run, cmd, what, name=None, detail=""):
-        rname, cl, sv, cfgp, _, kfp, peer = run
+        rname, cl, sv, cfgp, _, kfp, peer = run[:7]
         replay = " ".join(cmd[:1] + ["-v", "--vv", "--trace", "--conf", cmd[cmd.index("--conf") + 1], "--mode", cmd[cmd.index("--mode") + 1],
                                      "--known-failing", cmd[cmd.index("--known-failing") + 1]]
                           + (["--run", "'%s'" % name] if name else []) + ["--"] + cmd[-1:])
@@ -297,6 +493,7 @@ class C01(Prop):
                 "answered": sum(recv.values()), "total": total, "passed": passed, "failed": nfailed,
                 "failed_as_expected": len(info), "marked": len(marked), "could_not_run": notrun}
         ctx.notes["run_" + rname] = note
+        st["sent"] = sent
         vs = []
         tail = "stdout tail: " + out[-1500:] + "\nstderr tail: " + err[-1500:]
         for n in failed[:3]:
@@ -331,6 +528,45 @@ class C01(Prop):
                                               total, passed, nfailed, notrun, expected, len(names), len(marked)), None, tail))
         return vs
 
+    def _coverage(self, ctx, started, vs):
+        """which axis values / pairs of the full shipped matrix the quick tier really executed (from the 'Sending request'
+        lines of the reduced run and the slices of each mode), against what the full matrix contains"""
+        values, pairs, slices = {}, {}, {}
+        missing_all = []
+        for base, sl in self._slices.items():
+            tuple_of = sl["tuple_of"]
+            sent = collections.Counter()
+            for st in started:
+                if st["run"][0].split("-slice")[0] == base:
+                    sent.update(st.get("sent", {}))
+            covered, outside = set(), 0
+            for n in sent:
+                t = tuple_of.get(n)
+                if t is None:
+                    outside += 1
+                    continue
+                covered |= self._targets(n.split("/")[0], t)
+            need = sl["targets"]
+            missing = sorted(need - covered, key=repr)
+            mode = "server mode" if base == "referenceserver" else "client mode"
+            values[mode] = {a: ["%s%s" % (AXIS_NAMES[a].get(v, v), "" if any(t[0] == "sv" and t[2] == a and t[3] == v for t in covered) else " (NOT EXECUTED)")
+                                for v in sorted({t[3] for t in need if t[0] == "sv" and t[2] == a})] for a in AXES}
+            cnt = lambda kind: "%d of %d" % (sum(1 for t in need if t[0] == kind and t in covered), sum(1 for t in need if t[0] == kind))
+            pairs[mode] = {"suite_x_axis_value": cnt("sv"), "axis_value_x_axis_value": cnt("vv"),
+                           "suite_x_axis_value_x_axis_value": cnt("svv"), "suites": len({t[1] for t in need if t[0] == "sv"}),
+                           "distinct_permutations_executed": len(sent), "of_full_matrix": len(tuple_of),
+                           "executed_names_outside_the_full_matrix": outside}
+            slices[mode] = {"rows_of_full_matrix": len(sl["rows"]), "rows_in_reduced_config": sum(1 for k in sl["rows"] if self._in_reduced(k)),
+                            "rows_added_by_covering_array": len(sl["chosen"]), "slice_processes": len(sl["parts"]),
+                            "rows_per_process": [len(p) for p in sl["parts"]]}
+            missing_all += [(mode,) + t for t in missing]
+        ctx.notes["axis_values_covered"] = values
+        ctx.notes["pairs_covered"] = pairs
+        ctx.notes["slices"] = slices
+        if missing_all and not vs:
+            raise core.HarnessError("C01 quick tier: %d coverage targets of the full matrix were not executed, e.g. %s" % (
+                len(missing_all), missing_all[:5]))
+
     def extra(self, ctx):
         if os.environ.get("VERIF_C01_SKIP_RUNS"):
             return []
@@ -340,6 +576,29 @@ class C01(Prop):
         # 1. start the real runs (they take the longest), as the Makefile does
         limit = 600 if ctx.tier == "quick" else 2400
         started = [self._start(ctx, bins, run) for run in plan]
+
+        def reap():
+            # note when each run ends (they end at different times, while the oracle is still being evaluated)
+            while True:
+                pending = [st for st in started if "rc" not in st]
+                if not pending:
+                    return
+                for st in pending:
+                    rc = st["proc"].poll()
+                    if rc is None and time.time() - st["t0"] > limit:
+                        st["proc"].kill()
+                        st["proc"].wait()
+                        rc = "timeout after %ds" % limit
+                    if rc is not None:
+                        st["dt"] = time.time() - st["t0"]
+                        st["so"].close()
+                        st["se"].close()
+                        st["rc"] = rc
+                time.sleep(0.2)
+        reaper = threading.Thread(target=reap, daemon=True)
+        reaper.start()
+        rcmd = lambda run: ["connectconformance", "--conf", run[3], "--mode", "server" if run[1] else "client",
+                            "--known-failing", "@" + run[5], "--", run[6]]
         try:
             # 2. meanwhile: the oracle on the real corpus.  Patterns come from the real command-line parser.
             g, m = ctx.eval_both([["c01.patterns", open(run[5], "rb").read()] for run in plan], "kf")
@@ -349,75 +608,98 @@ class C01(Prop):
                     vs.append(core.Violation("known-failing file %s: parsePatternFile and the model disagree" % run[5],
                                              "; impl : %s\n; model: %s\n%s\n" % (gi, mi, core.sx(["c01.patterns", 0, open(run[5], "rb").read()]))))
                 pats.append([p for p in core.parse_sx(gi)])
+            # one oracle case per unrestricted run; the slices of one mode share one case (the library is built once)
+            groups = []          # [(label, [plan indices], dump line)]
+            by_base = collections.OrderedDict()
+            for i, run in enumerate(plan):
+                if run[7] is None:
+                    groups.append((run[0], [i], ["dump", len(groups), run[0], run[1], run[2], run[4], pats[i]]))
+                else:
+                    by_base.setdefault((run[0].split("-slice")[0], run[3]), []).append(i)
+            for (base, _), idx in by_base.items():
+                run = plan[idx[0]]
+                label = base + ("-slices" if "-slice" in run[0] else "-selected")
+                groups.append((label, idx, ["dump", len(groups), label, run[1], run[2], run[4], pats[idx[0]],
+                                            [[plan[i][7]["run"], plan[i][7]["skip"]] for i in idx]]))
             dump_in = os.path.join(ctx.work, "dump.in")
             with open(dump_in, "w") as f:
-                for i, (run, ps) in enumerate(zip(plan, pats)):
-                    f.write(core.sx(["dump", i, run[0], run[1], run[2], run[4], ps]) + "\n")
+                for _, _, line in groups:
+                    f.write(core.sx(line) + "\n")
             dump_out = os.path.join(ctx.work, "real.cases")
             core.run_go(ctx.bin("cc"), self.packages["cc"], dump_in, dump_out, timeout=300, testname="TestVerifDump")
             cases = []
             for line in open(dump_out):
                 c = core.parse_sx(line)
                 cases.append([c[0].decode()] + c[2:])
-            g, m = ctx.eval_both(cases, "real")
-            preds = []
-            for ri, (run, gi, mi) in enumerate(zip(plan, g, m)):
+            # small cases together, each case on the full shipped matrix in a process of its own, all at once
+            big = [i for i, (label, idx, _) in enumerate(groups)
+                   if label.endswith("-slices") or (ctx.tier != "quick" and label.startswith("reference"))]
+            small = [i for i in range(len(cases)) if i not in big]
+            res = {}
+            with concurrent.futures.ThreadPoolExecutor(max_workers=8) as ex:
+                futs = {}
+                if small:
+                    futs[ex.submit(ctx.eval_both, [cases[i] for i in small], "real")] = small
+                for i in big:
+                    futs[ex.submit(ctx.eval_both, [cases[i]], "real." + groups[i][0])] = [i]
+                for fu, idx in futs.items():
+                    gg, mm = fu.result()
+                    for i, gi, mi in zip(idx, gg, mm):
+                        res[i] = (gi, mi)
+            preds = [None] * len(plan)
+            for gi_, (label, idx, _) in enumerate(groups):
+                gi, mi = res[gi_]
+                run = plan[idx[0]]
                 mt = core.parse_sx(mi) if mi else None
                 gt = core.parse_sx(gi) if gi else None
                 ok_m = isinstance(mt, list) and mt and mt[0] == b"ok"
+                ok_g = isinstance(gt, list) and gt and gt[0] == b"ok"
+                sliced = run[7] is not None
+                # views: per plan index (names, marked, lib, groups, total of allPermutations, announced total, patterns ok)
+                view = lambda t, j: (t[1 + j] + [t[-1][j]]) if sliced else t[1:]
                 if gi != mi:
                     detail = "impl : %s\nmodel: %s" % ((gi or "")[:300], (mi or "")[:300])
                     nm = None
-                    if ok_m and isinstance(gt, list) and gt and gt[0] == b"ok":
-                        gs, ms = collections.Counter(gt[1]), collections.Counter(mt[1])
-                        only_g = sorted((gs - ms).elements())
-                        only_m = sorted((ms - gs).elements())
-                        detail = ("sent by the real planning code only (%d): %s\npredicted by the oracle only (%d): %s\n"
-                                  "marked impl/model: %d/%d; library %s/%s; groups %s/%s; total %s/%s; patterns ok %s/%s" % (
-                                      len(only_g), [x.decode() for x in only_g[:5]], len(only_m), [x.decode() for x in only_m[:5]],
-                                      len(gt[2]), len(mt[2]), gt[3], mt[3], gt[4], mt[4], gt[5], mt[5], gt[6], mt[6]))
-                        nm = (only_g + only_m + [None])[0]
-                        nm = nm.decode() if nm else None
-                    vs.append(self._violation(run, ["connectconformance", "--conf", run[3], "--mode", "server" if run[1] else "client",
-                                                    "--known-failing", "@" + run[5], "--", run[6]],
-                                              "oracle and real planning code (parseConfig/newTestCaseLibrary/gRPC filter/patterns) disagree",
-                                              nm, detail))
-                if ok_m:
-                    preds.append(([x.decode() for x in mt[1]], [x.decode() for x in mt[2]]))
-                    ctx.notes["oracle_" + run[0]] = {"names": len(mt[1]), "marked": len(mt[2]), "library": mt[3], "groups": mt[4],
-                                                     "patterns": len(cases[ri][5]),
-                                                     "patterns_ok": mt[6]}
-                    if mt[6] != 1:
-                        vs.append(self._violation(run, ["connectconformance", "--conf", run[3], "--mode", "server" if run[1] else "client",
-                                                        "--known-failing", "@" + run[5], "--", run[6]],
-                                                  "a pattern of the shipped known-failing list matches no permutation"))
-                else:
-                    preds.append(None)
-                    vs.append(self._violation(run, ["connectconformance", "--conf", run[3], "--mode", "server" if run[1] else "client",
-                                                    "--known-failing", "@" + run[5], "--", run[6]],
-                                              "the oracle does not predict this run: %s" % (mi or "")[:200]))
+                    if ok_m and ok_g and len(gt) == len(mt):
+                        for j in range(len(idx)):
+                            gv, mv = view(gt, j), view(mt, j)
+                            if gv == mv:
+                                continue
+                            gs, ms = collections.Counter(gv[0]), collections.Counter(mv[0])
+                            only_g = sorted((gs - ms).elements())
+                            only_m = sorted((ms - gs).elements())
+                            detail = ("run %s: sent by the real planning code only (%d): %s\npredicted by the oracle only (%d): %s\n"
+                                      "marked impl/model: %d/%d; library %s/%s; groups %s/%s; all permutations %s/%s; "
+                                      "announced total %s/%s; patterns ok %s/%s" % (
+                                          plan[idx[j]][0], len(only_g), [x.decode() for x in only_g[:5]], len(only_m),
+                                          [x.decode() for x in only_m[:5]], len(gv[1]), len(mv[1]), gv[2], mv[2], gv[3], mv[3],
+                                          gv[4], mv[4], gv[5], mv[5], gv[6], mv[6]))
+                            nm = (only_g + only_m + [None])[0]
+                            nm = nm.decode() if nm else None
+                            break
+                    vs.append(self._violation(run, rcmd(run), "oracle and real planning code (parseConfig/newTestCaseLibrary/gRPC filter/"
+                                              "patterns/--run filter) disagree", nm, detail))
+                if not ok_m:
+                    vs.append(self._violation(run, rcmd(run), "the oracle does not predict this run: %s" % (mi or "")[:200]))
+                    continue
+                for j, pi in enumerate(idx):
+                    mv = view(mt, j)
+                    if mv[5] != len(mv[0]):
+                        vs.append(self._violation(plan[pi], rcmd(plan[pi]), "oracle: announced total %s differs from the %d names sent" % (mv[5], len(mv[0]))))
+                    preds[pi] = ([x.decode() for x in mv[0]], [x.decode() for x in mv[1]])
+                    ctx.notes["oracle_" + plan[pi][0]] = {"names": len(mv[0]), "marked": len(mv[1]), "library": mv[2], "groups": mv[3],
+                                                          "all_permutations": mv[4], "patterns": len(pats[pi]), "patterns_ok": mv[6],
+                                                          "run_patterns": len((plan[pi][7] or {}).get("run", [])),
+                                                          "skip_patterns": len((plan[pi][7] or {}).get("skip", []))}
+                    if mv[6] != 1:
+                        vs.append(self._violation(plan[pi], rcmd(plan[pi]), "a pattern of the shipped known-failing list%s matches no permutation" % (
+                            " or a --run / --skip pattern of the selection" if sliced else "")))
             # the reference pair ships EMPTY lists
             for run, ps in zip(plan, pats):
                 if run[0].startswith("reference") and ps:
-                    vs.append(self._violation(run, ["connectconformance", "--conf", run[3], "--mode", "server" if run[1] else "client",
-                                                    "--known-failing", "@" + run[5], "--", run[6]],
-                                              "the known-failing list of a reference implementation is not empty: %s" % ps[:3]))
+                    vs.append(self._violation(run, rcmd(run), "the known-failing list of a reference implementation is not empty: %s" % ps[:3]))
             # 3. wait for the runs and judge them
-            while True:
-                pending = [st for st in started if "rc" not in st]
-                if not pending:
-                    break
-                for st in pending:
-                    rc = st["proc"].poll()
-                    if rc is None and time.time() - st["t0"] > limit:
-                        st["proc"].kill()
-                        st["proc"].wait()
-                        rc = "timeout after %ds" % limit
-                    if rc is not None:
-                        st["rc"], st["dt"] = rc, time.time() - st["t0"]
-                        st["so"].close()
-                        st["se"].close()
-                time.sleep(0.2)
+            reaper.join()
             for st, pred in zip(started, preds):
                 if pred is None:
                     continue
@@ -426,7 +708,9 @@ class C01(Prop):
             for st in started:
                 if st["proc"].poll() is None:
                     st["proc"].kill()
-                    st["proc"].wait()
+            reaper.join(30)
+        if ctx.tier == "quick":
+            self._coverage(ctx, started, vs)
         # 4. thorough: the timing-dependent pairing found on this property (gRPC reference server, gRPC-Web over
         #    HTTP/1.1, large half-duplex streams; fixed in /repo 9b5a7d5) is run again and again
         if ctx.tier == "thorough" and not vs:
@@ -447,7 +731,8 @@ class C01(Prop):
             ctx.notes["stress_grpcweb_http1"] = "%d repetitions, %d failed" % (reps, bad)
         ctx.notes["exhaustive"] = (ctx.tier == "thorough")
         ctx.notes["executed_permutations"] = sum(ctx.notes.get("run_" + r[0], {}).get("sent", 0) for r in plan)
-        ctx.notes["runs"] = [r[0] + ("" if ctx.tier == "thorough" or not r[0].startswith("reference") else " (reduced config)") for r in plan]
+        ctx.notes["runs"] = [r[0] + (" (shipped config, %d --run row patterns)" % len(r[7]["run"]) if r[7] and r[7]["run"] else
+                                     " (reduced config, --skip %s)" % " ".join("'%s'" % x for x in r[7]["skip"]) if r[7] else "") for r in plan]
         return vs
 
 
